@@ -12,7 +12,8 @@ const { makeAdapter } = require('./adapter')
 const { SimFs } = require('./simfs')
 const smap = require('./smap')
 
-const FILES = ['/sim/app/a.js', '/sim/app/lib/b.js', '/sim/c.js', '/sim/app/lib/deep/d.js', '/sim/other/e.js']
+// two pairs share a base name in different directories
+const FILES = ['/sim/app/a.js', '/sim/app/lib/b.js', '/sim/other/a.js', '/sim/c.js', '/sim/app/lib/deep/b.js', '/sim/other/e.js']
 
 function cfgOf (chain, comments) {
   return {
@@ -219,11 +220,18 @@ function execute (plan, table) {
         const id = parseFn(r.fn)
         const lx = L[fo.path]
         const ld = loaded[fo.path]
+        if (r.fn === 'mkErr' && lx && ld && lx.status === 'modified' && ld.id === lx.id && plan.cfgs[lx.rw].chainSourceMap && fo.versions[ld.v].omap && fo.versions[ld.v].omap.gap > 0) st('probe:frame-in-unmapped-region-of-chained-map')
         if (lx && ld && id && fo.versions[id.vi] && ld.v === id.vi) {
           const ver = fo.versions[id.vi]
           const site = ver.sites[id.k]
           const siteLine = site ? (id.caller ? site.cbLine : site.line) : 0
-          if (ld.id === lx.id && lx.status === 'modified' && ld.rewritten && siteLine) {
+          const cfgL = plan.cfgs[lx.rw]
+          // the original map covers the file from (0-based) line `gap` on: 1-based line L is unmapped iff L <= gap
+          const unmapped = cfgL.chainSourceMap && ver.omap && siteLine > 0 && siteLine <= (ver.omap.gap || 0)
+          if (unmapped && ld.id === lx.id && lx.status === 'modified') {
+            why = 'position in a region the original map does not cover: no positional expectation'
+            st('probe:frame-in-unmapped-region-of-chained-map')
+          } else if (ld.id === lx.id && lx.status === 'modified' && ld.rewritten && siteLine) {
             exp = expectedFor(fo, ver, siteLine, plan.cfgs[lx.rw]); why = 'latest rewrite is modified and is the running code'
             st('probe:frame-in-rewritten-file')
             if (exp.chained) st('probe:frame-through-chained-map')
@@ -364,7 +372,7 @@ function execute (plan, table) {
           const cf = plan.files[op.cbf]; const cld = cf && loaded[cf.path]
           if (cld) {
             const cver = cf.versions[cld.v]
-            const cs = cver.sites.filter(s => !['callback', 'throw', 'method'].includes(s.kind))
+            const cs = cver.sites.filter(s => !['callback', 'throw', 'method', 'helper'].includes(s.kind))
             if (cs.length) { const c = cs[op.cbsite % cs.length]; cb = cld.exports[c.fn]; cbKind = c.kind; if (cf.path !== f.path) st('probe:cross-file-stack') }
           }
           if (typeof cb !== 'function') cb = function plainCallback () { return new Error('cb') }
@@ -502,5 +510,5 @@ module.exports = {
     'frames of code that is older than the latest rewrite of its file carry no positional expectation (the package keys by file name)',
     'batching the rewriter is sound here because call-to-call state of the rewriter is C16\'s subject'
   ],
-  expectedProbes: ['probe:frame-in-rewritten-file', 'probe:frame-through-chained-map', 'probe:file-rewritten-again', 'probe:throw-from-stale-code', 'probe:notmodified-after-modified', 'probe:rewrite-by-second-rewriter-instance', 'probe:eval-frame', 'probe:frame-in-never-rewritten-file', 'probe:lru-eviction-burst', 'probe:cross-file-stack', 'probe:string-path', 'probe:structured-path', 'probe:lookup-translated']
+  expectedProbes: ['probe:frame-in-unmapped-region-of-chained-map', 'probe:frame-in-rewritten-file', 'probe:frame-through-chained-map', 'probe:file-rewritten-again', 'probe:throw-from-stale-code', 'probe:notmodified-after-modified', 'probe:rewrite-by-second-rewriter-instance', 'probe:eval-frame', 'probe:frame-in-never-rewritten-file', 'probe:lru-eviction-burst', 'probe:cross-file-stack', 'probe:string-path', 'probe:structured-path', 'probe:lookup-translated']
 }
